@@ -24,6 +24,10 @@ type h01Env struct {
 	curY   int
 	truec  bool
 	stampB []int // stamps before the final Show (C13)
+	// SetStyle changed the default style and only a Show (no full repaint) followed:
+	// cells stored with StyleDefault keep the default style of the time they were
+	// painted (DESIGN A.2), so their appearance is not judged
+	styleOpen bool
 }
 
 func h01New(term string, w, h int, truecolor bool) *h01Env {
@@ -61,21 +65,24 @@ func (e *h01Env) color(c Color) (rvColor, bool) {
 // expected pen for a style; known=false where the oracle leaves the appearance open
 func (e *h01Env) pen(st Style) (rvPen, bool) {
 	t, ti := e.t, e.t.ti
+	known := true
 	if st == StyleDefault {
 		st = e.style
+		if e.styleOpen {
+			known = false
+		}
 	}
 	var p rvPen
-	known := true
 	if ti.Colors > 0 {
 		var ok1, ok2 bool
 		p.fg, ok1 = e.color(st.fg)
 		p.bg, ok2 = e.color(st.bg)
-		known = ok1 && ok2
+		known = known && ok1 && ok2
 		if (st.fg == ColorReset || st.bg == ColorReset) && ti.ResetFgBg == "" {
 			known = false
 		}
 	} else {
-		known = !st.fg.Valid() // reverse-video heuristics on colourless terminals are not judged
+		known = known && !st.fg.Valid() // reverse-video heuristics on colourless terminals are not judged
 	}
 	a := st.attrs
 	p.bold = a&AttrBold != 0 && ti.Bold != ""
@@ -120,6 +127,9 @@ func (e *h01Env) pen(st Style) (rvPen, bool) {
 	}
 	if t.enterUrl != "" {
 		p.url, p.urlid = st.url, st.urlId
+		if len(p.urlid) >= 3 && p.urlid[:3] == "id=" {
+			p.urlid = p.urlid[3:] // Style.UrlId stores the OSC 8 parameter "id=<id>"
+		}
 		if st.url == "" {
 			p.urlid = ""
 		}
@@ -165,7 +175,11 @@ func (e *h01Env) compare(what string) {
 			vsymAssert(h08RunesEq(got.comb, ecomb), what+": cell shows the combining runes last set")
 			ep, known := e.pen(c.style)
 			if known {
-				vsymAssert(h01PenEq(got.pen, ep), what+": cell shows the colours, attributes, underline and hyperlink last set")
+				g := got.pen
+				vsymAssert(g.fg == ep.fg && g.bg == ep.bg, what+": cell shows the colours last set")
+				vsymAssert(g.bold == ep.bold && g.dim == ep.dim && g.italic == ep.italic && g.blink == ep.blink && g.reverse == ep.reverse && g.strike == ep.strike, what+": cell shows the attributes last set")
+				vsymAssert(g.under == ep.under && (g.under == 0 || g.ul == ep.ul), what+": cell shows the underline style and colour last set")
+				vsymAssert(g.url == ep.url && g.urlid == ep.urlid, what+": cell shows the hyperlink last set")
 			}
 			covered = ew == 2
 		}
@@ -281,6 +295,7 @@ func (e *h01Env) mutate(tag string) {
 	case 3: // SetStyle
 		e.style = e.menuStyle(tag)
 		e.s.SetStyle(e.style)
+		e.styleOpen = true
 	case 4: // ShowCursor
 		e.curX, e.curY = vsymInt(tag+".cx"), vsymInt(tag+".cy")
 		vsymAssume(vsymAnd(vsymAnd(e.curX >= -1, e.curX <= e.w), vsymAnd(e.curY >= -1, e.curY <= e.h)))
@@ -334,6 +349,9 @@ func H01_hist() {
 		e.mutate("m" + string(rune('0'+i)))
 		final := vsymChoice("final"+string(rune('0'+i)), vsymParam("finals", 4))
 		blkBefore := e.tty.vt.blk
+		if final != 0 {
+			e.styleOpen = false // a full repaint follows
+		}
 		switch final {
 		case 0:
 			e.s.Show()
